@@ -66,12 +66,18 @@ def run(ck):
         X = rng.standard_normal((n, d)); Y = rng.standard_normal((n, nout))
         Xv = rng.standard_normal((6, d)); Yv = rng.standard_normal((6, nout))
         Q = rng.standard_normal((5, d))
-        desc = dict(i=i, kernel=kern, diag=diag, iters=iters, q=q, early=early, rb=rb, base=base, n=n, d=d, seed=ck.seed)
+        # every third configuration selects its iterate with a MAXIMISED metric (accuracy on one-hot targets)
+        metric = 'accuracy' if i % 3 == 2 else 'mse'
+        if metric == 'accuracy':
+            K = 2 + (i // 3) % 2
+            Y = np.eye(K)[rng.integers(0, K, size=n)]; Yv = np.eye(K)[rng.integers(0, K, size=6)]
+            Y[:K] = np.eye(K); Yv[:K] = np.eye(K)
+        desc = dict(i=i, kernel=kern, diag=diag, iters=iters, q=q, early=early, rb=rb, base=base, n=n, d=d, metric=metric, seed=ck.seed)
 
         def fit(scale):
             xr.seed_all(1900 + i + ck.seed)
             m = xr.RealRFM(kernel=kern, iters=iters, bandwidth=base, exponent=q, bandwidth_mode='adaptive', device='cpu', diag=diag, verbose=False,
-                           tuning_metric='mse', **extra)
+                           tuning_metric=metric, **extra)
             with xr.quiet():
                 m.fit((T(X * scale), T(Y)), (T(Xv * scale), T(Yv)), iters=iters, reg=1e-2, verbose=False, early_stop_rfm=early, return_best_params=rb,
                       early_stop_multiplier=1.05)
@@ -81,7 +87,7 @@ def run(ck):
             m, P = fit(1.0)
         except Exception as e:
             ck.violation(f'adaptive fit raised {e!r} on {desc}', dict(desc), key='fit-raise'); continue
-        ck.count(f'kernel={kern}'); ck.count(f'iters={iters}'); ck.count(f'best_iter={m.best_iter}')
+        ck.count(f'kernel={kern}'); ck.count(f'iters={iters}'); ck.count(f'best_iter={m.best_iter}'); ck.count(f'metric={metric}')
         # ---- (a) stored bandwidth = base * lower median of the pairwise distances under the stored state ----
         D = kernel_distance_matrix(m, m.centers)
         off = D[~torch.eye(n, dtype=torch.bool)]
